@@ -11,7 +11,8 @@
                      step has predicates and > 1 context nodes       order, node test, predicates; union
     string-value     recursive walk over element children           all text descendants in doc order
     comparisons      the cascades of contextfn_comparisons.go        §3.4 as one function
-    round            getRound (negative ties away from zero)         ⌊x + ½⌋
+    round            getRound (negative ties away from zero;         ⌊x + ½⌋, -0 on [-0.5, 0)
+                     -0 on (-0.5, 0))
 
   Everything else (conversions, arithmetic, string functions, name resolution, predicates'
   truth rule, union, function calls) is a single definition shared by both.
